@@ -32,4 +32,49 @@ ImplColdNv(r, m) == LET la == ImplColdLa(r, m) IN IF la < m THEN 0 ELSE ((la - m
 ImplColdCount(r, m) == 2 * ImplColdNv(r, m)
 ImplColdPos(m, tree, v, t) == (IF tree = "a" THEN 2 ELSE 3) + 2 * (2 * v + (m - 1 - t))
 ImplColdSrc(r, m, tree, v, t) == ColdExt(r, m, ImplColdPos(m, tree, v, t))
+
+(* ======================= colifilt / rowifilt (synthesis, level >= 2) ======================= *)
+\* both sides extend by m2 = m/2 samples: xe[p] = reflect(p - m2); position -1 = "this tap does not meet this output"
+IfiltExt(r, m, p) == IF p = -1 THEN -1 ELSE NpReflectHalf(p - (m \div 2), r)
+
+(* reference (dtcwt.numpy.lowlevel.colifilt): output row y = 4v + c, four polyphase 'valid' convolutions with the
+   m/2-tap sub-filters hao = h[0::2] (even taps), hae = h[1::2] (odd taps) of each tree *)
+RefIfiltPos(m, pol, tree, y, t) ==
+    LET m2 == m \div 2
+        v  == y \div 4
+        c  == y % 4
+        q  == v + m2 - 1 - (t \div 2)
+    IN  IF m2 % 2 = 0 THEN
+            LET T  == 3 + 2 * q
+                Ta == IF pol THEN T ELSE T - 1
+                Tb == IF pol THEN T - 1 ELSE T
+            IN  IF tree = "a"
+                THEN (IF c = 0 /\ t % 2 = 1 THEN Tb - 2 ELSE IF c = 2 /\ t % 2 = 0 THEN Tb ELSE -1)
+                ELSE (IF c = 1 /\ t % 2 = 1 THEN Ta - 2 ELSE IF c = 3 /\ t % 2 = 0 THEN Ta ELSE -1)
+        ELSE
+            LET T  == 2 + 2 * q
+                Ta == IF pol THEN T ELSE T - 1
+                Tb == IF pol THEN T - 1 ELSE T
+            IN  IF tree = "a"
+                THEN (IF c = 0 /\ t % 2 = 0 THEN Tb ELSE IF c = 2 /\ t % 2 = 1 THEN Tb ELSE -1)
+                ELSE (IF c = 1 /\ t % 2 = 0 THEN Ta ELSE IF c = 3 /\ t % 2 = 1 THEN Ta ELSE -1)
+
+(* the code: group g = y mod 4 gathers xe[start_g :: 2] and correlates it (no stride) with a sub-filter of the
+   STORED (flipped) tensor s[u] = h[m-1-u]: "odd" so[w] = s[1+2w] = h[m-2-2w], "even" se[w] = s[2w] = h[m-1-2w] *)
+IfiltStart(m2even, hp, g) ==
+    IF m2even THEN (IF hp THEN (IF g = 0 THEN 1 ELSE IF g = 1 THEN 0 ELSE IF g = 2 THEN 3 ELSE 2)
+                          ELSE (IF g = 0 THEN 0 ELSE IF g = 1 THEN 1 ELSE IF g = 2 THEN 2 ELSE 3))
+    ELSE (IF hp THEN (IF g = 0 THEN 2 ELSE IF g = 1 THEN 1 ELSE IF g = 2 THEN 2 ELSE 1)
+                ELSE (IF g = 0 THEN 1 ELSE IF g = 1 THEN 2 ELSE IF g = 2 THEN 1 ELSE 2))
+ImplIfiltPos(m, hp, tree, y, t) ==
+    LET m2 == m \div 2
+        v  == y \div 4
+        g  == y % 4
+        m2even == (m2 % 2 = 0)
+        kindOdd == IF m2even THEN g >= 2 ELSE g < 2            \* h1..h4 = (hae, hbe, hao, hbo) / (hao, hbo, hae, hbe)
+        gtree == IF g % 2 = 0 THEN "a" ELSE "b"
+        num == IF kindOdd THEN m - 2 - t ELSE m - 1 - t
+    IN  IF gtree # tree THEN -1
+        ELSE IF num < 0 \/ num % 2 # 0 \/ (num \div 2) >= m2 THEN -1
+        ELSE IfiltStart(m2even, hp, g) + 2 * (v + (num \div 2))
 =============================================================================
